@@ -49,9 +49,12 @@ struct Tracker : AbstractFile {
     bool eof() const override { return u.eof(); }
 };
 
-static std::string do_enc(std::istringstream& is) {
+static std::string do_enc(std::istringstream& is, bool poison) {
+    int pat = 0; if (poison) is >> pat;
     std::string cn; is >> cn; const ClassReflect* c = find_class(cn); if (!c) return "bad-class";
-    ObjectHeaderBase* o = c->make();
+    void* mem = nullptr;
+    ObjectHeaderBase* o;
+    if (poison) { mem = malloc(c->size); memset(mem, pat, c->size); o = c->make_in(mem); } else o = c->make();
     std::string tok; std::vector<uint8_t> b;
     while (is >> tok) { size_t e = tok.find('='); if (e == std::string::npos) continue; int f = atoi(tok.substr(0, e).c_str()); if (!parse_hex(tok.substr(e + 1), b)) continue; c->set(o, f, b.data(), b.size()); }
     uint32_t s0 = o->calculateObjectSize();
@@ -62,7 +65,7 @@ static std::string do_enc(std::istringstream& is) {
     std::vector<uint8_t> out(size_t(n > 0 ? n : 0));
     if (n > 0) uf.read(reinterpret_cast<char*>(out.data()), n);
     std::string r = "enc halt=" + halt + " size0=" + std::to_string(s0) + " out=" + to_hex(out.data(), out.size()) + " obj " + dump_obj(c, o);
-    delete o;
+    if (poison) { c->destroy(o); free(mem); } else delete o;
     return r;
 }
 
@@ -116,9 +119,24 @@ static std::string do_dflt(std::istringstream& is) {
     return "dflt type=" + std::to_string(type) + " obj " + dumps[0] + " indet=" + indet;
 }
 
+#include <cxxabi.h>
+#include <typeinfo>
+static std::string do_factory(std::istringstream& is) {
+    unsigned long code = 0; is >> code;
+    ObjectHeaderBase* o = File::createObject(static_cast<ObjectType>(uint32_t(code)));
+    if (!o) return "factory " + std::to_string(code) + " none";
+    int st = 0; char* dn = abi::__cxa_demangle(typeid(*o).name(), nullptr, nullptr, &st);
+    std::string n = dn ? dn : typeid(*o).name(); free(dn);
+    size_t k = n.rfind("::"); if (k != std::string::npos) n = n.substr(k + 2);
+    delete o;
+    return "factory " + std::to_string(code) + " " + n;
+}
+
 static std::string handle(const std::string& line) {
     std::istringstream is(line); std::string cmd; is >> cmd;
-    if (cmd == "enc") return do_enc(is);
+    if (cmd == "enc") return do_enc(is, false);
+    if (cmd == "encp") return do_enc(is, true);
+    if (cmd == "factory") return do_factory(is);
     if (cmd == "dec") return do_dec(is, false);
     if (cmd == "reenc") return do_dec(is, true);
     if (cmd == "dflt") return do_dflt(is);
